@@ -110,23 +110,80 @@ fn parse_date_time(s: &str) -> Result<DateTime<FixedOffset>, String> {
         }
     }
     let not_a_time = || format!("Failed to parse {s} as date: no such time in the time zone");
-    match dtparse::parse(s) {
-        Ok((dt, Some(offset))) => earlier(offset.from_local_datetime(&dt)).ok_or_else(not_a_time),
+    // The time zone is not left to the parser of the date: it reads `+0530` as `+05:00` and
+    // `UTC+9` as 9 hours *behind* UTC, and it silently ignores the names it doesn't know.
+    let (date_time, offset) = split_time_zone(s)?;
+    match dtparse::parse(date_time) {
+        Ok((_, Some(_))) => Err(format!(
+            "Failed to parse {s} as date: cannot tell the time zone for sure, \
+             give it as an offset from UTC after the time of day, e.g. 12:00:00 +02:00"
+        )),
         Ok((dt, None)) => {
             // The parser accepts the name of a time zone it doesn't know, and ignores it.
             // Taking such a time for the local time could be wrong by many hours.
-            if let Some(zone) = s.split_whitespace().find(|word| is_time_zone_name(word)) {
+            let words = date_time.split(|c: char| !c.is_ascii_alphabetic());
+            if let Some(zone) = { words }.find(|word| is_time_zone_name(word)) {
                 return Err(format!(
                     "Failed to parse {s} as date: unknown time zone {zone}, \
                      give the offset from UTC instead, e.g. +02:00"
                 ));
             }
-            earlier(Local.from_local_datetime(&dt))
-                .map(|t| t.fixed_offset())
-                .ok_or_else(not_a_time)
+            match offset {
+                Some(offset) => earlier(offset.from_local_datetime(&dt)),
+                None => earlier(Local.from_local_datetime(&dt)).map(|t| t.fixed_offset()),
+            }
+            .ok_or_else(not_a_time)
         }
         Err(e) => Err(format!("Failed to parse {s} as date: {e}")),
     }
+}
+
+/// Splits the string into the date and time, and the offset from UTC given after the time of day
+/// as `Z`, `UTC`, `GMT`, `+HH`, `+HHMM` or `+HH:MM`.
+fn split_time_zone(s: &str) -> Result<(&str, Option<FixedOffset>), String> {
+    lazy_static::lazy_static! {
+        static ref WITH_ZONE: regex::Regex = regex::Regex::new(
+            r"(?x)^(?P<date_time> .*? \d{1,2} : \d{2} (?: : \d{2} (?: [.,] \d+ )? )? (?: \s* [AaPp][Mm] )? )
+              \s* (?P<utc> Z | UTC | GMT )?
+              \s* (?: (?P<sign> [+-] ) (?P<hours> \d{1,2} ) (?: :? (?P<minutes> \d{2} ) )? )? $"
+        )
+        .unwrap();
+    }
+    let captures = match WITH_ZONE.captures(s.trim()) {
+        Some(captures) => captures,
+        None => return Ok((s, None)),
+    };
+    let date_time = captures.name("date_time").map_or(s, |m| m.as_str());
+    let number = |name: &str| {
+        let digits = captures.name(name).map_or("0", |m| m.as_str());
+        digits.parse::<i32>().unwrap_or(i32::MAX)
+    };
+    let offset = match (captures.name("utc"), captures.name("sign")) {
+        (None, None) => None,
+        (Some(_), None) => FixedOffset::east_opt(0),
+        // Some read `UTC+9` as 9 hours ahead of UTC, and some as 9 hours behind
+        (Some(_), Some(_)) => {
+            return Err(format!(
+                "Failed to parse {s} as date: give the offset from UTC alone, e.g. +09:00"
+            ))
+        }
+        (None, Some(sign)) => {
+            let (hours, minutes) = (number("hours"), number("minutes"));
+            let seconds = match sign.as_str() {
+                "-" => -(hours * 3600 + minutes * 60),
+                _ => hours * 3600 + minutes * 60,
+            };
+            match FixedOffset::east_opt(seconds) {
+                Some(offset) if hours < 24 && minutes < 60 => Some(offset),
+                _ => {
+                    return Err(format!(
+                        "Failed to parse {s} as date: invalid offset from UTC"
+                    ))
+                }
+            }
+        }
+    };
+    Ok((date_time, offset))
 }
 
 /// Returns true if the word looks like an abbreviated name of a time zone, e.g. CEST or JST.
